@@ -233,6 +233,17 @@ def known_f2(case):
     return sum(1 for f in fs if f.get("type") == "mprocess") >= 2
 
 
+def known_f3(case):
+    """case -> bool: a measurement process with a null outcome (all Choi eigenvalues <= the 1e-13 cut of to_kraus_matrices,
+    i.e. an empty Kraus list) is embedded (C07-F3)."""
+    if not isinstance(case, dict) or not isinstance(case.get("obj"), dict) or case["obj"].get("type") != "mprocess":
+        return False
+    for kx in gen.mprocess_kraus(case["obj"]):
+        if float(np.max(np.linalg.eigvalsh(rm.herm(rm.choi_from_kraus(kx))))) <= 1.5e-13:
+            return True
+    return False
+
+
 def _guarded(ctx, label, fn, predicted):
     """run fn(); an exception with a quara frame is a failure whose oracle id says whether the F1 root cause predicts it."""
     try:
@@ -568,6 +579,7 @@ def _dim_tuples(kmin, kmax, dmax):
 
 DIMS_VEC = _dim_tuples(2, 4, 36)
 DIMS_VEC_SMALL = _dim_tuples(2, 4, 24)
+DIMS_36 = [t for t in DIMS_VEC if int(np.prod(t)) == 36]
 DIMS_BASIS = _dim_tuples(2, 4, 24)
 
 
@@ -635,7 +647,13 @@ def kron_case(draw, tier):
                 factors.append(draw(_factor("gate", dd)))
         return {"family": family, "dims": dims, "names": draw(_names(k)), "factors": factors,
                 "style": draw(st.sampled_from(["flat", "list"]))}
-    dims = draw(st.sampled_from(DIMS_VEC if family != "ensemble" else DIMS_VEC_SMALL))
+    # d = 36 (2x2x3x3 in some order) costs ~15 s per case (an SVD rank test of a 1296^2 matrix per composite system): rare
+    big = family != "ensemble" and draw(st.integers(0, 23 if tier == "quick" else 11)) == 0
+    if big:
+        dims = draw(st.sampled_from(DIMS_36))
+    else:
+        kk = draw(st.sampled_from([2, 3, 3, 4, 4]))
+        dims = draw(st.sampled_from([t for t in DIMS_VEC_SMALL if len(t) == kk]))
     k = len(dims)
     names = draw(_names(k))
     if family == "state":
@@ -830,7 +848,7 @@ def check_product_statistics(case, ctx):
         for (midx, pidx), val in exp_tab.items():
             marg[midx] = marg.get(midx, 0.0) + val
         if min(marg.values()) > 1e-6:  # MProcess o State truncates outcomes with p <= eps_zero = 1e-8
-            ens = compose_qoperations(mp, rho)
+            ens = compose_qoperations(mp, gate, rho)
             for midx, val in sorted(marg.items()):
                 if not ctx.close(ens.prob_dist[midx], val, tol, "mplayout:compose" if two_mp else "compose_mprocess_state_layout",
                                  f"idx={midx} shape={mshape}"):
@@ -849,7 +867,7 @@ def stats_case(draw, tier):
     if chain == "full":
         dims = draw(st.sampled_from([[2, 2], [2, 2], [2, 3], [3, 2]]))
     else:
-        dims = draw(st.sampled_from(DIMS_VEC))
+        dims = draw(st.sampled_from(DIMS_VEC_SMALL))
     k = len(dims)
     d = int(np.prod(dims))
     names = draw(_names(k))
